@@ -55,9 +55,9 @@ def given_by_caller(b, local):
     return bool(os_) and all(o.kind in ("arg", "upvar") for o in os_)
 
 
-def check_consume(ctx, fx, cfg, floor):
+def check_consume(ctx, fx, cfg, floor, RULE="R18.1"):
     sites = sorted({f["def"] for f, bi, t in graph.all_calls(fx, nfa.trait_method("actor::spawner::Spawner", "spawn_actor"))})
-    ctx.floor("R18.1", "spawn entry points (%s)" % cfg, len(sites), floor)
+    ctx.floor(RULE, "spawn entry points (%s)" % cfg, len(sites), floor)
     n_fn = 0
     for f in fx.d["fns"]:
         if "post" in f:
@@ -65,13 +65,13 @@ def check_consume(ctx, fx, cfg, floor):
             n_fn += 1
             drops = [(bi, blk["t"]) for bi, blk in enumerate(b.blocks) if not blk["c"] and blk["t"]["k"] == "drop" and handle_types(blk["t"]["ty"]) and len(blk["t"]["p"]) == 1 and not given_by_caller(b, blk["t"]["p"][0])]
             if f["def"] in sites or drops:
-                ctx.require(not drops, "R18.1", "%s@%s" % (f["def"], cfg), "an actor handle is dropped on a normal path (on a runtime whose task handle cancels on drop the freshly spawned actor dies): %s" % [(t["ty"][:60], t["l"]) for _, t in drops], fn=f["def"], site=drops[0][1]["l"] if drops else f["loc"], detail={"mir": "post (drops elaborated)"})
+                ctx.require(not drops, RULE, "%s@%s" % (f["def"], cfg), "an actor handle is dropped on a normal path (on a runtime whose task handle cancels on drop the freshly spawned actor dies): %s" % [(t["ty"][:60], t["l"]) for _, t in drops], fn=f["def"], site=drops[0][1]["l"] if drops else f["loc"], detail={"mir": "post (drops elaborated)"})
         else:
             b = ctx.body(fx, f, "pre")
             drops = [(bi, blk["t"]) for bi, blk in enumerate(b.blocks) if not blk["c"] and blk["t"]["k"] == "drop" and handle_types(blk["t"]["ty"]) and len(blk["t"]["p"]) == 1 and not b.drop_is_noop_for(bi, blk["t"]["p"][0], handle_types) and not given_by_caller(b, blk["t"]["p"][0])]
             # a coroutine's captured variables are dropped by its own drop glue only when it is dropped unfinished
             if f["def"] in sites or drops:
-                ctx.require(not drops, "R18.1", "%s@%s" % (f["def"], cfg), "an actor handle may be dropped on a normal path of this async body: %s" % [(t["ty"][:60], t["l"]) for _, t in drops], fn=f["def"], site=drops[0][1]["l"] if drops else f["loc"], detail={"mir": "pre + must-moved analysis"})
+                ctx.require(not drops, RULE, "%s@%s" % (f["def"], cfg), "an actor handle may be dropped on a normal path of this async body: %s" % [(t["ty"][:60], t["l"]) for _, t in drops], fn=f["def"], site=drops[0][1]["l"] if drops else f["loc"], detail={"mir": "pre + must-moved analysis"})
     # each site: the handle reaches detach or the caller
     for s in sites:
         f = fx.fn(s)
@@ -89,11 +89,11 @@ def check_consume(ctx, fx, cfg, floor):
                         how.add("returned-in-%s" % (x.get("def") or x.get("ak")))
                     elif x["k"] == "ret":
                         how.add("ret")
-                ctx.require(bool(how), "R18.1", "consumed:%s@%s" % (s, cfg), "the handle returned by spawn_actor is neither detached nor handed to the caller", fn=s, site=t["l"], detail=sorted(how))
+                ctx.require(bool(how), RULE, "consumed:%s@%s" % (s, cfg), "the handle returned by spawn_actor is neither detached nor handed to the caller", fn=s, site=t["l"], detail=sorted(how))
                 # what is spawned is the loop created from the actor in this function
                 rs = b.origins(t["args"][0])
                 ok = all(o.kind == "call" and (b.call_at(o).get("callee") or "").startswith("environment::Environment::<A, R>::create_loop") and o.proj[:1] == ("f0",) for o in rs)
-                ctx.require(ok, "R18.1", "spawns-its-loop:%s@%s" % (s, cfg), "what is spawned is not the event loop created here", fn=s, site=t["l"])
+                ctx.require(ok, RULE, "spawns-its-loop:%s@%s" % (s, cfg), "what is spawned is not the event loop created here", fn=s, site=t["l"])
 
 
 def check_runtime(ctx, fx, cfg):
